@@ -1398,7 +1398,62 @@ func sameAddr(a, b ssa.Value) bool {
 	if ok1 && ok2 {
 		return fa.Field == fb.Field && sameAddr(fa.X, fb.X)
 	}
+	// two reads of a variable that lives in a cell because a function literal
+	// captures it, and that is assigned exactly once (a parameter, a := local)
+	ua, ok1 := a.(*ssa.UnOp)
+	ub, ok2 := b.(*ssa.UnOp)
+	if ok1 && ok2 && ua.Op == token.MUL && ub.Op == token.MUL && ua.X == ub.X {
+		if al, ok := ua.X.(*ssa.Alloc); ok && storedOnce(al) {
+			return true
+		}
+	}
 	return false
+}
+
+// storedOnce: the cell has exactly one store in its function and function
+// literals capturing it only read it.
+func storedOnce(al *ssa.Alloc) bool {
+	if al.Referrers() == nil {
+		return false
+	}
+	n := 0
+	for _, r := range *al.Referrers() {
+		switch x := r.(type) {
+		case *ssa.UnOp, *ssa.DebugRef:
+		case *ssa.Store:
+			if x.Addr != ssa.Value(al) {
+				return false
+			}
+			n++
+		case *ssa.MakeClosure:
+			fn, ok := x.Fn.(*ssa.Function)
+			if !ok {
+				return false
+			}
+			for i, b := range x.Bindings {
+				if b != ssa.Value(al) {
+					continue
+				}
+				if i >= len(fn.FreeVars) || fn.FreeVars[i].Referrers() == nil {
+					return false
+				}
+				for _, fr := range *fn.FreeVars[i].Referrers() {
+					switch y := fr.(type) {
+					case *ssa.DebugRef:
+					case *ssa.UnOp:
+						if y.Op != token.MUL {
+							return false
+						}
+					default:
+						return false
+					}
+				}
+			}
+		default:
+			return false
+		}
+	}
+	return n == 1
 }
 
 // loadIsAfter: the load at atInstr (evaluated on call string ctx) happens after
